@@ -334,6 +334,13 @@ func verifC05(variant int) {
 			}
 			w.dcs.seed(pathLastSwitch, sw)
 		}
+		// a later request that was rejected (its own record: last_rejected_switch) says nothing about
+		// the last finished failover and must not hide it
+		if verifnd.Param("rejected_record", 0) == 1 && verifnd.Choose("dcs.last_rejected_switch", 2) == 1 {
+			w.dcs.seed(pathLastRejectedSwitch, &Switchover{From: m, InitiatedBy: "operator", Cause: CauseManual, MasterTransition: SwitchoverTransition,
+				InitiatedAt: verifnd.TimeAt(lim - 1), Result: &SwitchoverResult{Ok: false, Error: "rejected", FinishedAt: verifnd.TimeAt(lim - 1)}})
+			verifnd.Reach("C05.rejected-record-present")
+		}
 	}
 	resolve := func(p string) {
 		if resolved[p] {
